@@ -79,4 +79,9 @@ RECURSIVE ObjRun(_, _)
 \* the sequence of states observed after each operation
 ObjRun(s, ops) == IF ops = <<>> THEN <<>>
                   ELSE LET s2 == ObjStep(s, Head(ops)) IN <<s2>> \o ObjRun(s2, Tail(ops))
+\* plain records of registers (QuadkeyAndVerticalID, the two conversion-parameter
+\* objects): a setter writes its own slot and nothing else, a getter reads its own slot
+RECURSIVE RegRun(_, _)
+RegRun(s, ops) == IF ops = <<>> THEN <<>>
+                  ELSE LET s2 == [s EXCEPT ![Head(ops)[1]] = Head(ops)[2]] IN <<s2>> \o RegRun(s2, Tail(ops))
 =============================================================================
